@@ -1,4 +1,7 @@
-(* Proofs about the Array2D model (C08). *)
+(* Proofs about the Array2D model (C08).  Everything is reduced to pointwise
+   statements about [nth_error] of the backing list; the index arithmetic
+   (range, injectivity, "which cells does a row window cover") is done once
+   in Z and holds for every width and height. *)
 From Typ Require Import Lib.Base Arrays.Array2D.
 
 Local Open Scope Z_scope.
@@ -11,3 +14,818 @@ Proof. intros Hx Hy. nia. Qed.
 Lemma idx_inj w x y x' y' : 0 <= x < w -> 0 <= x' < w -> 0 <= y -> 0 <= y' ->
   x + y * w = x' + y' * w -> x = x' /\ y = y'.
 Proof. intros Hx Hx' Hy Hy' E. assert (y = y') by nia. subst. lia. Qed.
+
+Lemma idx_index : forall w h x y x' y',
+  0 <= x < w -> 0 <= y < h -> 0 <= x' < w -> 0 <= y' < h ->
+  0 <= x + y * w < w * h /\ (x + y * w = x' + y' * w -> x = x' /\ y = y').
+Proof.
+  intros w h x y x' y' Hx Hy Hx' Hy'. split; [apply idx_range; assumption|].
+  apply idx_inj; lia.
+Qed.
+
+(* the cells [x1+y*w, x1+y*w + (x2-x1+1)) are exactly the cells (x1..x2, y) *)
+Lemma in_row_window w x1 x2 y x' y' :
+  0 <= x1 -> x2 < w -> 0 <= y -> 0 <= x' < w -> 0 <= y' ->
+  (x1 + y * w <= x' + y' * w < x1 + y * w + (x2 - x1 + 1)) <-> (y' = y /\ x1 <= x' <= x2).
+Proof.
+  intros H1 H2 Hy Hx' Hy'. split.
+  - intros [Ha Hb]. assert (y' = y) by nia. subst. lia.
+  - intros [-> Hx]. lia.
+Qed.
+
+(* ---- lists ---- *)
+Section Lists.
+Context {A : Type}.
+Implicit Types (c l : list A).
+
+Lemma set_nth_nth_error i (x : A) l l' : set_nth i x l = Ok l' ->
+  forall j, nth_error l' j = if (j =? i)%nat then Some x else nth_error l j.
+Proof.
+  revert i l'; induction l as [|h t IH]; intros [|i] l' E j; simpl in E; try discriminate.
+  - injection E as <-. destruct j; reflexivity.
+  - destruct (set_nth i x t) as [t'|] eqn:Et; simpl in E; [|discriminate].
+    injection E as <-. destruct j as [|j]; [reflexivity|]. simpl. apply (IH _ _ Et).
+Qed.
+
+Lemma nth_error_ext l l' : (forall j, nth_error l j = nth_error l' j) -> l = l'.
+Proof.
+  revert l'; induction l as [|h t IH]; intros [|h' t'] E.
+  - reflexivity.
+  - specialize (E 0%nat). discriminate.
+  - specialize (E 0%nat). discriminate.
+  - pose proof (E 0%nat) as E0. simpl in E0. injection E0 as ->. f_equal.
+    apply IH. intro j. apply (E (S j)).
+Qed.
+
+Lemma nth_error_splice l1 l2 l3 j :
+  nth_error (l1 ++ l2 ++ l3) j =
+  if (j <? length l1)%nat then nth_error l1 j
+  else if (j <? length l1 + length l2)%nat then nth_error l2 (j - length l1)
+  else nth_error l3 (j - length l1 - length l2).
+Proof.
+  destruct (Nat.ltb_spec j (length l1)) as [H|H].
+  - apply nth_error_app1. exact H.
+  - rewrite nth_error_app2 by exact H.
+    destruct (Nat.ltb_spec j (length l1 + length l2)) as [H2|H2].
+    + apply nth_error_app1. lia.
+    + rewrite nth_error_app2 by lia. reflexivity.
+Qed.
+
+Lemma nth_error_firstn n l j : nth_error (firstn n l) j = if (j <? n)%nat then nth_error l j else None.
+Proof.
+  revert n j; induction l as [|h t IH]; intros [|n] [|j]; simpl; try reflexivity.
+  - destruct (S j <? S n)%nat; reflexivity.
+  - rewrite IH. reflexivity.
+Qed.
+
+Lemma nth_error_skipn n l j : nth_error (skipn n l) j = nth_error l (n + j).
+Proof.
+  revert l; induction n as [|n IH]; intros [|h t]; simpl; try reflexivity.
+  - destruct j; reflexivity.
+  - apply IH.
+Qed.
+
+Lemma win_read_nth c off n j : nth_error (win_read c (off, n)) j = if (j <? n)%nat then nth_error c (off + j) else None.
+Proof. unfold win_read; simpl. rewrite nth_error_firstn, nth_error_skipn. reflexivity. Qed.
+
+Lemma win_read_length c off n : (off + n <= length c)%nat -> length (win_read c (off, n)) = n.
+Proof. intro H. unfold win_read; simpl. rewrite firstn_length, skipn_length. lia. Qed.
+
+Lemma copy_into_length c off n src : (off + Nat.min n (length src) <= length c)%nat ->
+  length (copy_into c (off, n) src) = length c.
+Proof.
+  intro H. unfold copy_into; simpl. rewrite !app_length, !firstn_length, skipn_length. lia.
+Qed.
+
+Lemma copy_into_nth c off n src j : (off + Nat.min n (length src) <= length c)%nat ->
+  nth_error (copy_into c (off, n) src) j =
+  if ((off <=? j) && (j <? off + Nat.min n (length src)))%nat then nth_error src (j - off) else nth_error c j.
+Proof.
+  intro H. unfold copy_into; simpl. rewrite nth_error_splice.
+  rewrite !firstn_length. replace (Nat.min off (length c)) with off by lia.
+  replace (Nat.min (Nat.min n (length src)) (length src)) with (Nat.min n (length src)) by lia.
+  destruct (Nat.ltb_spec j off) as [H1|H1].
+  - replace (off <=? j)%nat with false by (symmetry; apply Nat.leb_gt; lia). simpl.
+    rewrite nth_error_firstn. replace (j <? off)%nat with true by (symmetry; apply Nat.ltb_lt; lia). reflexivity.
+  - replace (off <=? j)%nat with true by (symmetry; apply Nat.leb_le; lia). simpl.
+    destruct (Nat.ltb_spec j (off + Nat.min n (length src))) as [H2|H2].
+    + rewrite nth_error_firstn.
+      replace (j - off <? Nat.min n (length src))%nat with true by (symmetry; apply Nat.ltb_lt; lia). reflexivity.
+    + rewrite nth_error_skipn. f_equal. lia.
+Qed.
+
+(* s[i] and s[i] = v with an int index inside the slice *)
+Lemma index_get_nth l i : 0 <= i ->
+  index_get l i = match nth_error l (Z.to_nat i) with Some v => Ok v | None => Panic IndexOutOfRange end.
+Proof. intro H. unfold index_get, get_nth. destruct (Z.ltb_spec i 0); [lia|reflexivity]. Qed.
+
+Lemma index_set_ok l i (v : A) : 0 <= i < Z.of_nat (length l) ->
+  exists l', index_set l i v = Ok l' /\ length l' = length l /\
+    forall j, nth_error l' j = if (j =? Z.to_nat i)%nat then Some v else nth_error l j.
+Proof.
+  intro H. unfold index_set. destruct (Z.ltb_spec i 0); [lia|].
+  destruct (set_nth_ok (Z.to_nat i) v l) as [l' E]; [lia|].
+  exists l'. split; [exact E|]. split; [eapply set_nth_length; exact E|]. apply set_nth_nth_error. exact E.
+Qed.
+
+Lemma store_ok c i (v : A) : 0 <= i < Z.of_nat (length c) ->
+  exists c', store c i v = (c', None) /\ length c' = length c /\
+    forall j, nth_error c' j = if (j =? Z.to_nat i)%nat then Some v else nth_error c j.
+Proof.
+  intro H. destruct (index_set_ok c i v H) as (c' & E & HL & Hn).
+  exists c'. unfold store. rewrite E. auto.
+Qed.
+
+End Lists.
+
+(* ---- Get / Set ---- *)
+Section Cells.
+Context {A : Type}.
+Implicit Types (a : array2d A).
+
+(* the position of cell (x,y) in the backing list *)
+Definition pos a (x y : Z) : nat := Z.to_nat (x + y * width a).
+
+Lemma wf_length a : wf a -> Z.of_nat (length (cells a)) = width a * height a.
+Proof. intros (Hw & Hh & HL). rewrite HL. apply Z2Nat.id. nia. Qed.
+
+Lemma pos_lt a x y : wf a -> in_bounds a x y -> (pos a x y < length (cells a))%nat.
+Proof.
+  intros Hwf [Hx Hy]. pose proof (wf_length a Hwf) as HL. pose proof (idx_range _ _ _ _ Hx Hy) as R.
+  unfold pos. lia.
+Qed.
+
+Lemma pos_inj a x y x' y' : in_bounds a x y -> in_bounds a x' y' -> pos a x y = pos a x' y' -> x = x' /\ y = y'.
+Proof.
+  intros [Hx Hy] [Hx' Hy'] E. unfold pos in E.
+  apply (idx_inj (width a)); try lia.
+  assert (0 <= x + y * width a) by nia. assert (0 <= x' + y' * width a) by nia. lia.
+Qed.
+
+Lemma in_bounds_dec a x y :
+  ((x <? 0) || (x >=? width a) = false /\ (y <? 0) || (y >=? height a) = false /\ in_bounds a x y) \/
+  (((x <? 0) || (x >=? width a) = true \/ (y <? 0) || (y >=? height a) = true) /\ ~ in_bounds a x y).
+Proof.
+  unfold in_bounds.
+  destruct (Z.ltb_spec x 0), (Z.geb_spec x (width a)), (Z.ltb_spec y 0), (Z.geb_spec y (height a)); simpl;
+    first [left; repeat split; (reflexivity || lia) | right; split; [auto | lia]].
+Qed.
+
+Lemma get_cell a x y : in_bounds a x y ->
+  get a x y = match nth_error (cells a) (pos a x y) with Some v => Ok v | None => Panic IndexOutOfRange end.
+Proof.
+  intro H. destruct (in_bounds_dec a x y) as [(E1 & E2 & _)|[_ N]]; [|contradiction].
+  unfold get, get_unchecked. rewrite E1, E2. destruct H as [Hx Hy]. apply index_get_nth. nia.
+Qed.
+
+Lemma get_in a x y : wf a -> in_bounds a x y ->
+  exists v, get a x y = Ok v /\ nth_error (cells a) (pos a x y) = Some v.
+Proof.
+  intros Hwf H. rewrite (get_cell a x y H).
+  destruct (nth_error (cells a) (pos a x y)) as [v|] eqn:E.
+  - exists v. auto.
+  - apply nth_error_None in E. pose proof (pos_lt a x y Hwf H). lia.
+Qed.
+
+Lemma get_out a x y : ~ in_bounds a x y -> get a x y = Panic IndexOutOfRange.
+Proof.
+  intro N. destruct (in_bounds_dec a x y) as [(_ & _ & H)|[[E|E] _]]; [contradiction| |]; unfold get.
+  - rewrite E. reflexivity.
+  - rewrite E. destruct ((x <? 0) || (x >=? width a)); reflexivity.
+Qed.
+
+(* two well-formed arrays of the same shape whose backing lists agree at a cell's position
+   give the same Get there *)
+Lemma get_same_shape a a' x y : width a' = width a -> height a' = height a ->
+  (in_bounds a x y -> nth_error (cells a') (pos a x y) = nth_error (cells a) (pos a x y)) ->
+  get a' x y = get a x y.
+Proof.
+  intros Ew Eh E. destruct (in_bounds_dec a x y) as [(_ & _ & H)|[_ N]].
+  - assert (H' : in_bounds a' x y) by (unfold in_bounds; rewrite Ew, Eh; exact H).
+    rewrite (get_cell a x y H), (get_cell a' x y H'). unfold pos in *. rewrite Ew. rewrite (E H). reflexivity.
+  - rewrite (get_out a x y N). apply get_out. unfold in_bounds. rewrite Ew, Eh. exact N.
+Qed.
+
+Lemma set_in a x y (v : A) : wf a -> in_bounds a x y ->
+  exists a', set a x y v = (a', None) /\ wf a' /\ width a' = width a /\ height a' = height a /\
+    get a' x y = Ok v /\
+    forall x' y', (x', y') <> (x, y) -> get a' x' y' = get a x' y'.
+Proof.
+  intros Hwf H. destruct (in_bounds_dec a x y) as [(E1 & E2 & _)|[_ N]]; [|contradiction].
+  pose proof (pos_lt a x y Hwf H) as Hlt.
+  destruct (store_ok (cells a) (x + y * width a) v) as (c' & Es & HL & Hn).
+  { destruct H as [Hx Hy]. unfold pos in Hlt. split; [nia|]. lia. }
+  exists (Arr (width a) (height a) c').
+  unfold set, set_unchecked, with_cells. rewrite E1, E2, Es. simpl.
+  split; [reflexivity|]. split.
+  { destruct Hwf as (Hw & Hh & HLa). unfold wf; simpl. rewrite HL. auto. }
+  split; [reflexivity|]. split; [reflexivity|]. split.
+  - rewrite get_cell by exact H. unfold pos; simpl. rewrite Hn, Nat.eqb_refl. reflexivity.
+  - intros x' y' Hne. apply get_same_shape; try reflexivity. intro H'. simpl. rewrite Hn.
+    destruct (Nat.eqb_spec (pos a x' y') (Z.to_nat (x + y * width a))) as [E|E]; [|reflexivity].
+    destruct (pos_inj a x' y' x y H' H E) as [-> ->]. contradiction.
+Qed.
+
+Lemma set_out a x y (v : A) : ~ in_bounds a x y -> set a x y v = (a, Some IndexOutOfRange).
+Proof.
+  intro N. destruct (in_bounds_dec a x y) as [(_ & _ & H)|[[E|E] _]]; [contradiction| |]; unfold set.
+  - rewrite E. reflexivity.
+  - rewrite E. destruct ((x <? 0) || (x >=? width a)); reflexivity.
+Qed.
+
+End Cells.
+
+(* ---- Row / RowSpan: live windows onto exactly the cells of that part of the row ---- *)
+Section Windows.
+Context {A : Type}.
+Implicit Types (a : array2d A).
+
+Lemma slice_win_ok (s : list A) lo hi : 0 <= lo <= hi -> hi <= Z.of_nat (length s) ->
+  slice_win s lo hi = Ok (Z.to_nat lo, Z.to_nat (hi - lo)).
+Proof.
+  intros H1 H2. unfold slice_win.
+  destruct (Z.leb_spec 0 lo), (Z.leb_spec lo hi), (Z.leb_spec hi (Z.of_nat (length s))); first [reflexivity | lia].
+Qed.
+
+Lemma oob_false x n : 0 <= x < n -> (x <? 0) || (x >=? n) = false.
+Proof. intro H. destruct (Z.ltb_spec x 0), (Z.geb_spec x n); first [reflexivity | lia]. Qed.
+
+Lemma oob_true x n : ~ 0 <= x < n -> (x <? 0) || (x >=? n) = true.
+Proof. intro H. destruct (Z.ltb_spec x 0), (Z.geb_spec x n); first [reflexivity | lia]. Qed.
+
+(* position i of the window (pos x1 y, n) is cell (x1+i, y), for reading and for writing,
+   on whatever the array holds when the window is used (liveness) *)
+Lemma window_is_cells a x1 y n i (v : A) :
+  0 <= x1 -> 0 <= y < height a -> 0 <= i < Z.of_nat n -> x1 + i < width a ->
+  let win := (pos a x1 y, n) in
+  win_get (cells a) win i = get a (x1 + i) y /\
+  with_cells a (win_store (cells a) win i v) = set a (x1 + i) y v.
+Proof.
+  intros Hx1 Hy Hi Hx win. unfold win, win_get, win_store, get, set, get_unchecked, set_unchecked. simpl.
+  rewrite (oob_false i (Z.of_nat n)) by lia.
+  rewrite (oob_false (x1 + i) (width a)) by lia.
+  rewrite (oob_false y (height a)) by lia.
+  assert (E : Z.of_nat (pos a x1 y) + i = x1 + i + y * width a).
+  { unfold pos. rewrite Z2Nat.id by nia. lia. }
+  rewrite E. split; reflexivity.
+Qed.
+
+Lemma window_outside (c : list A) win i (v : A) : ~ 0 <= i < Z.of_nat (snd win) ->
+  win_get c win i = Panic IndexOutOfRange /\ win_store c win i v = (c, Some IndexOutOfRange).
+Proof. intro H. unfold win_get, win_store. rewrite (oob_true _ _ H). auto. Qed.
+
+Lemma row_span_in a x1 x2 y : wf a -> 0 <= x1 -> x1 <= x2 -> x2 < width a -> 0 <= y < height a ->
+  row_span a x1 x2 y = Ok (pos a x1 y, Z.to_nat (x2 - x1 + 1)).
+Proof.
+  intros Hwf H1 H12 H2 Hy. unfold row_span.
+  rewrite (oob_false x1 (width a)) by lia. rewrite (oob_false y (height a)) by lia.
+  rewrite (oob_false x2 (width a)) by lia.
+  rewrite slice_win_ok.
+  - replace (1 + x2 + y * width a - (x1 + y * width a)) with (x2 - x1 + 1) by lia. reflexivity.
+  - nia.
+  - rewrite (wf_length a Hwf). nia.
+Qed.
+
+Lemma row_span_out a x1 x2 y : ~ (0 <= x1 < width a /\ 0 <= x2 < width a /\ 0 <= y < height a) ->
+  row_span a x1 x2 y = Panic IndexOutOfRange.
+Proof.
+  intro N. unfold row_span.
+  destruct (Z.ltb_spec x1 0), (Z.geb_spec x1 (width a)); simpl; try reflexivity.
+  destruct (Z.ltb_spec y 0), (Z.geb_spec y (height a)); simpl; try reflexivity.
+  destruct (Z.ltb_spec x2 0), (Z.geb_spec x2 (width a)); simpl; try reflexivity.
+  lia.
+Qed.
+
+Lemma row_in a y : wf a -> 0 <= y < height a -> row a y = Ok (pos a 0 y, Z.to_nat (width a)).
+Proof.
+  intros Hwf Hy. unfold row. rewrite (oob_false y (height a)) by lia.
+  destruct Hwf as (Hw & Hh & HL).
+  rewrite slice_win_ok.
+  - replace (width a + y * width a - y * width a) with (width a) by lia. unfold pos. rewrite Z.add_0_l. reflexivity.
+  - nia.
+  - rewrite HL. rewrite Z2Nat.id by nia. nia.
+Qed.
+
+Lemma row_out a y : ~ 0 <= y < height a -> row a y = Panic IndexOutOfRange.
+Proof. intro N. unfold row. rewrite (oob_true _ _ N). reflexivity. Qed.
+
+(* the statements in the form used by Props/C08.v *)
+Lemma row_span_window a x1 x2 y : wf a -> 0 <= x1 -> x1 <= x2 -> x2 < width a -> 0 <= y < height a ->
+  exists win, row_span a x1 x2 y = Ok win /\ Z.of_nat (snd win) = x2 - x1 + 1 /\
+    forall a', wf a' -> width a' = width a -> height a' = height a ->
+    forall i v, 0 <= i <= x2 - x1 ->
+      win_get (cells a') win i = get a' (x1 + i) y /\
+      with_cells a' (win_store (cells a') win i v) = set a' (x1 + i) y v.
+Proof.
+  intros Hwf H1 H12 H2 Hy. eexists. split; [apply row_span_in; assumption|]. simpl.
+  split; [lia|]. intros a' _ Ew Eh i v Hi.
+  replace (pos a x1 y) with (pos a' x1 y) by (unfold pos; rewrite Ew; reflexivity).
+  apply window_is_cells; lia.
+Qed.
+
+Lemma row_window a y : wf a -> 0 <= y < height a ->
+  exists win, row a y = Ok win /\ Z.of_nat (snd win) = width a /\
+    forall a', wf a' -> width a' = width a -> height a' = height a ->
+    forall i v, 0 <= i < width a ->
+      win_get (cells a') win i = get a' i y /\
+      with_cells a' (win_store (cells a') win i v) = set a' i y v.
+Proof.
+  intros Hwf Hy. eexists. split; [apply row_in; assumption|]. simpl.
+  destruct Hwf as (Hw & Hh & HL).
+  split; [lia|]. intros a' _ Ew Eh i v Hi.
+  replace (pos a 0 y) with (pos a' 0 y) by (unfold pos; rewrite Ew; reflexivity).
+  change i with (0 + i) at 2 4.
+  apply window_is_cells; lia.
+Qed.
+
+End Windows.
+
+(* ---- slices.Fill on a window: the exponential copy assigns exactly the window ---- *)
+Section Fill.
+Context {A : Type}.
+Implicit Types (a : array2d A) (c : list A).
+
+Definition in_win (off n j : nat) : bool := ((off <=? j) && (j <? off + n))%nat.
+
+Lemma in_win_true off n j : (off <= j < off + n)%nat -> in_win off n j = true.
+Proof. intro H. unfold in_win. apply andb_true_iff. split; [apply Nat.leb_le|apply Nat.ltb_lt]; lia. Qed.
+
+Lemma in_win_false off n j : ~ (off <= j < off + n)%nat -> in_win off n j = false.
+Proof.
+  intro H. unfold in_win. destruct (Nat.leb_spec off j), (Nat.ltb_spec j (off + n)); simpl; try reflexivity. lia.
+Qed.
+
+Lemma in_win_spec off n j : in_win off n j = true <-> (off <= j < off + n)%nat.
+Proof.
+  split; [|apply in_win_true]. unfold in_win. intro H. apply andb_true_iff in H as [H1 H2].
+  apply Nat.leb_le in H1. apply Nat.ltb_lt in H2. lia.
+Qed.
+
+Lemma fill_loop_spec (v : A) off n : forall fuel c i,
+  (1 <= i)%nat -> (n <= i + fuel)%nat -> (off + n <= length c)%nat ->
+  (forall j, (off <= j < off + Nat.min i n)%nat -> nth_error c j = Some v) ->
+  exists c', fill_loop fuel c (off, n) i = (c', None) /\ length c' = length c /\
+    forall j, nth_error c' j = if in_win off n j then Some v else nth_error c j.
+Proof.
+  induction fuel as [|fuel IH]; intros c i Hi Hfuel Hlen Hdone.
+  - exists c. simpl. replace (i <? n)%nat with false by (symmetry; apply Nat.ltb_ge; lia).
+    split; [reflexivity|]. split; [reflexivity|]. intro j.
+    destruct (in_win off n j) eqn:E; [|reflexivity]. apply in_win_spec in E. apply Hdone. lia.
+  - simpl. destruct (Nat.ltb_spec i n) as [Hlt|Hge].
+    + set (src := win_read c (off, i)).
+      assert (Hsl : length src = i) by (apply win_read_length; lia).
+      set (c1 := copy_into c ((off + i)%nat, (n - i)%nat) src).
+      assert (Hpre : (off + i + Nat.min (n - i) (length src) <= length c)%nat) by lia.
+      assert (HL1 : length c1 = length c) by (apply copy_into_length; exact Hpre).
+      assert (Hn1 : forall j, nth_error c1 j =
+                if in_win (off + i) (Nat.min (n - i) i) j then Some v else nth_error c j).
+      { intro j. unfold c1. rewrite copy_into_nth by exact Hpre. rewrite Hsl.
+        fold (in_win (off + i) (Nat.min (n - i) i) j).
+        destruct (in_win (off + i) (Nat.min (n - i) i) j) eqn:E; [|reflexivity].
+        apply in_win_spec in E. unfold src. rewrite win_read_nth.
+        replace (j - (off + i) <? i)%nat with true by (symmetry; apply Nat.ltb_lt; lia).
+        apply Hdone. lia. }
+      destruct (IH c1 (i + i)%nat) as (c' & E & HL & Hn); try lia.
+      { intros j Hj. rewrite Hn1.
+        destruct (in_win (off + i) (Nat.min (n - i) i) j) eqn:E; [reflexivity|].
+        apply Hdone. assert (~ (off + i <= j < off + i + Nat.min (n - i) i)%nat).
+        { intro X. apply in_win_true in X. congruence. } lia. }
+      exists c'. split; [exact E|]. split; [lia|]. intro j. rewrite Hn.
+      destruct (in_win off n j) eqn:Ej; [reflexivity|]. rewrite Hn1.
+      rewrite in_win_false; [reflexivity|].
+      assert (~ (off <= j < off + n)%nat) by (intro X; apply in_win_true in X; congruence). lia.
+    + exists c. split; [reflexivity|]. split; [reflexivity|]. intro j.
+      destruct (in_win off n j) eqn:E; [|reflexivity]. apply in_win_spec in E. apply Hdone. lia.
+Qed.
+
+Lemma slices_fill_spec (v : A) c off n : (off + n <= length c)%nat ->
+  exists c', slices_fill c (off, n) v = (c', None) /\ length c' = length c /\
+    forall j, nth_error c' j = if in_win off n j then Some v else nth_error c j.
+Proof.
+  intro Hlen. unfold slices_fill. cbn [fst snd]. destruct (Nat.eqb_spec n 0) as [->|Hn0].
+  - exists c. split; [reflexivity|]. split; [reflexivity|]. intro j.
+    rewrite in_win_false by lia. reflexivity.
+  - unfold win_store. cbn [fst snd]. rewrite oob_false by lia.
+    destruct (store_ok c (Z.of_nat off + 0) v) as (c1 & Es & HL1 & Hn1); [lia|].
+    rewrite Es. simpl.
+    destruct (fill_loop_spec v off n n c1 1%nat) as (c' & E & HL & Hn); try lia.
+    { intros j Hj. rewrite Hn1. replace (j =? Z.to_nat (Z.of_nat off + 0))%nat with true; [reflexivity|].
+      symmetry. apply Nat.eqb_eq. lia. }
+    exists c'. split; [exact E|]. split; [lia|]. intro j. rewrite Hn.
+    destruct (in_win off n j) eqn:Ej; [reflexivity|]. rewrite Hn1.
+    destruct (Nat.eqb_spec j (Z.to_nat (Z.of_nat off + 0))) as [Ej'|]; [|reflexivity].
+    assert (~ (off <= j < off + n)%nat) by (intro X; apply in_win_true in X; congruence). lia.
+Qed.
+
+End Fill.
+
+(* ---- Array2D.Fill ---- *)
+Section FillRect.
+Context {A : Type}.
+Implicit Types (a : array2d A) (c : list A).
+
+(* raw window of the backing list <-> coordinates *)
+Lemma in_win_coords w x1 x2 y x' y' : 0 <= x1 -> x1 <= x2 -> x2 < w -> 0 <= y -> 0 <= x' < w -> 0 <= y' ->
+  in_win (Z.to_nat (x1 + y * w)) (Z.to_nat (x2 - x1 + 1)) (Z.to_nat (x' + y' * w))
+  = (y' =? y) && (x1 <=? x') && (x' <=? x2).
+Proof.
+  intros H1 H12 H2 Hy Hx' Hy'.
+  pose proof (in_row_window w x1 x2 y x' y' H1 H2 Hy Hx' Hy') as [F B].
+  assert (0 <= y * w) by nia. assert (0 <= y' * w) by nia.
+  destruct (Z.eqb_spec y' y) as [Ey|Ey], (Z.leb_spec x1 x') as [Ea|Ea], (Z.leb_spec x' x2) as [Eb|Eb]; simpl;
+    try (apply in_win_false; intro X;
+         assert (Y : x1 + y * w <= x' + y' * w < x1 + y * w + (x2 - x1 + 1)) by lia;
+         apply F in Y; lia).
+  apply in_win_true. assert (Y : x1 + y * w <= x' + y' * w < x1 + y * w + (x2 - x1 + 1)) by (apply B; lia). lia.
+Qed.
+
+Section Sorted.
+Variables (v : A) (w h x1 x2 y1 y2 : Z).
+Hypothesis (Hx1 : 0 <= x1) (Hx12 : x1 <= x2) (Hx2 : x2 < w) (Hy1 : 0 <= y1) (Hy2 : y2 < h).
+Let fr : window := (Z.to_nat (x1 + y1 * w), Z.to_nat (x2 - x1 + 1)).
+
+Lemma fill_rows_spec : forall fuel c y,
+  y1 < y <= y2 + 1 -> (Z.to_nat (y2 + 1 - y) <= fuel)%nat -> length c = Z.to_nat (w * h) ->
+  (forall j, in_win (fst fr) (snd fr) j = true -> nth_error c j = Some v) ->
+  exists c', fill_rows fuel w c x1 x2 y y2 fr = (c', None) /\ length c' = length c /\
+    forall x' y', 0 <= x' < w -> 0 <= y' < h ->
+      nth_error c' (Z.to_nat (x' + y' * w)) =
+      if (x1 <=? x') && (x' <=? x2) && (y <=? y') && (y' <=? y2) then Some v
+      else nth_error c (Z.to_nat (x' + y' * w)).
+Proof.
+  induction fuel as [|fuel IH]; intros c y Hy Hfuel Hlen Hfr.
+  - assert (y = y2 + 1) by lia. subst y. exists c. simpl.
+    destruct (Z.leb_spec (y2 + 1) y2); [lia|]. split; [reflexivity|]. split; [reflexivity|].
+    intros x' y' Hx' Hy'.
+    destruct (Z.leb_spec (y2 + 1) y'), (Z.leb_spec y' y2); try lia; rewrite ?andb_false_r; reflexivity.
+  - cbn [fill_rows]. destruct (Z.leb_spec y y2) as [Hle|Hgt].
+    + assert (Hwh : Z.of_nat (length c) = w * h) by (rewrite Hlen; apply Z2Nat.id; nia).
+      rewrite slice_win_ok; [|nia|nia].
+      replace (1 + x2 + y * w - (x1 + y * w)) with (x2 - x1 + 1) by lia.
+      set (n := Z.to_nat (x2 - x1 + 1)).
+      set (src := win_read c fr).
+      assert (Hfrlen : (fst fr + snd fr <= length c)%nat).
+      { unfold fr; cbn [fst snd]. assert (0 <= y1 * w) by nia. nia. }
+      assert (Hsl : length src = n).
+      { unfold src, fr. apply win_read_length. exact Hfrlen. }
+      set (off := Z.to_nat (x1 + y * w)).
+      assert (Hpre : (off + Nat.min n (length src) <= length c)%nat).
+      { rewrite Hsl. unfold off, n. assert (0 <= y * w) by nia. nia. }
+      set (c1 := copy_into c (off, n) src).
+      assert (HL1 : length c1 = length c) by (apply copy_into_length; exact Hpre).
+      assert (Hn1 : forall j, nth_error c1 j = if in_win off n j then Some v else nth_error c j).
+      { intro j. unfold c1. rewrite copy_into_nth by exact Hpre. rewrite Hsl, Nat.min_id.
+        fold (in_win off n j). destruct (in_win off n j) eqn:E; [|reflexivity].
+        apply in_win_spec in E. unfold src, fr. rewrite win_read_nth. fold n.
+        replace (j - off <? n)%nat with true by (symmetry; apply Nat.ltb_lt; lia).
+        apply Hfr. apply in_win_true. unfold fr; cbn [fst snd]. fold n. lia. }
+      destruct (IH c1 (y + 1)) as (c' & E & HL & Hn); try lia.
+      { intros j Hj. rewrite Hn1. destruct (in_win off n j); [reflexivity|]. apply Hfr. exact Hj. }
+      exists c'. split; [exact E|]. split; [lia|].
+      intros x' y' Hx' Hy'. rewrite (Hn x' y' Hx' Hy'). rewrite Hn1.
+      unfold off, n. rewrite in_win_coords by lia.
+      destruct (Z.leb_spec x1 x'), (Z.leb_spec x' x2), (Z.leb_spec (y + 1) y'), (Z.leb_spec y' y2),
+               (Z.leb_spec y y'), (Z.eqb_spec y' y); simpl; try reflexivity; lia.
+    + exists c. split; [reflexivity|]. split; [reflexivity|].
+      intros x' y' Hx' Hy'.
+      destruct (Z.leb_spec y y'), (Z.leb_spec y' y2); try lia; rewrite ?andb_false_r; reflexivity.
+Qed.
+
+(* Fill with sorted corners, on the backing list *)
+Lemma fill_sorted_spec c : y1 <= y2 -> length c = Z.to_nat (w * h) ->
+  exists c',
+    and_then (slices_fill c fr v) (fun c => fill_rows (Z.to_nat (y2 - y1)) w c x1 x2 (y1 + 1) y2 fr) = (c', None) /\
+    length c' = length c /\
+    forall x' y', 0 <= x' < w -> 0 <= y' < h ->
+      nth_error c' (Z.to_nat (x' + y' * w)) =
+      if (x1 <=? x') && (x' <=? x2) && (y1 <=? y') && (y' <=? y2) then Some v
+      else nth_error c (Z.to_nat (x' + y' * w)).
+Proof.
+  intros Hy12 Hlen.
+  assert (Hfrlen : (fst fr + snd fr <= length c)%nat).
+  { unfold fr; cbn [fst snd]. assert (0 <= y1 * w) by nia. nia. }
+  destruct (slices_fill_spec v c (fst fr) (snd fr) Hfrlen) as (c1 & E1 & HL1 & Hn1).
+  change (fst fr, snd fr) with fr in E1. rewrite E1. cbn [and_then].
+  destruct (fill_rows_spec (Z.to_nat (y2 - y1)) c1 (y1 + 1)) as (c' & E & HL & Hn); try lia.
+  { intros j Hj. rewrite Hn1, Hj. reflexivity. }
+  exists c'. split; [exact E|]. split; [lia|].
+  intros x' y' Hx' Hy'. rewrite (Hn x' y' Hx' Hy'), Hn1.
+  unfold fr; cbn [fst snd]. rewrite in_win_coords by lia.
+  destruct (Z.leb_spec x1 x'), (Z.leb_spec x' x2), (Z.leb_spec (y1 + 1) y'), (Z.leb_spec y' y2),
+           (Z.leb_spec y1 y'), (Z.eqb_spec y' y1); simpl; try reflexivity; lia.
+Qed.
+
+End Sorted.
+End FillRect.
+
+Section FillTop.
+Context {A : Type}.
+Implicit Types (a : array2d A).
+
+Lemma fill_body_sorted a lx hx ly hy (v : A) : wf a ->
+  0 <= lx -> lx <= hx -> hx < width a -> 0 <= ly -> ly <= hy -> hy < height a ->
+  exists a',
+    match slice_win (cells a) (lx + ly * width a) (1 + hx + ly * width a) with
+    | Panic k => (a, Some k)
+    | Ok firstRow =>
+        with_cells a
+          (and_then (slices_fill (cells a) firstRow v) (fun c =>
+           fill_rows (Z.to_nat (hy - ly)) (width a) c lx hx (ly + 1) hy firstRow))
+    end = (a', None) /\
+    wf a' /\ width a' = width a /\ height a' = height a /\
+    forall x y, in_bounds a x y ->
+      get a' x y = if (lx <=? x) && (x <=? hx) && (ly <=? y) && (y <=? hy) then Ok v else get a x y.
+Proof.
+  intros Hwf H1 H2 H3 H4 H5 H6. pose proof Hwf as (Hw & Hh & HL).
+  rewrite slice_win_ok; [| nia | rewrite (wf_length a Hwf); nia].
+  replace (1 + hx + ly * width a - (lx + ly * width a)) with (hx - lx + 1) by lia.
+  destruct (fill_sorted_spec v (width a) (height a) lx hx ly hy H1 H2 H3 H4 H6 (cells a) H5 HL)
+    as (c' & E & HLc & Hn).
+  cbv zeta in E. rewrite E. unfold with_cells. cbn [fst snd].
+  eexists. split; [reflexivity|]. split; [unfold wf; cbn [width height cells]; rewrite HLc; auto|].
+  split; [reflexivity|]. split; [reflexivity|].
+  intros x y Hin. pose proof Hin as [Hx Hy].
+  rewrite (get_cell a x y Hin).
+  rewrite get_cell by exact Hin. unfold pos. cbn [width height cells].
+  rewrite (Hn x y Hx Hy).
+  destruct ((lx <=? x) && (x <=? hx) && (ly <=? y) && (y <=? hy)); reflexivity.
+Qed.
+
+Lemma in_rect_sorted x1 y1 x2 y2 x y :
+  in_rect x1 y1 x2 y2 x y =
+  (Z.min x1 x2 <=? x) && (x <=? Z.max x1 x2) && (Z.min y1 y2 <=? y) && (y <=? Z.max y1 y2).
+Proof. reflexivity. Qed.
+
+Lemma fill_in a x1 y1 x2 y2 (v : A) : wf a -> in_bounds a x1 y1 -> in_bounds a x2 y2 ->
+  exists a', fill a x1 y1 x2 y2 v = (a', None) /\
+    wf a' /\ width a' = width a /\ height a' = height a /\
+    forall x y, in_bounds a x y ->
+      get a' x y = if in_rect x1 y1 x2 y2 x y then Ok v else get a x y.
+Proof.
+  intros Hwf [Hx1 Hy1] [Hx2 Hy2]. unfold fill.
+  rewrite (oob_false x1 (width a)) by lia. rewrite (oob_false y1 (height a)) by lia.
+  rewrite (oob_false x2 (width a)) by lia. rewrite (oob_false y2 (height a)) by lia.
+  unfold in_rect.
+  destruct (Z.ltb_spec x2 x1) as [Hx|Hx], (Z.ltb_spec y2 y1) as [Hy|Hy].
+  - rewrite (Z.min_r x1 x2), (Z.max_l x1 x2), (Z.min_r y1 y2), (Z.max_l y1 y2) by lia.
+    apply fill_body_sorted; (assumption || lia).
+  - rewrite (Z.min_r x1 x2), (Z.max_l x1 x2), (Z.min_l y1 y2), (Z.max_r y1 y2) by lia.
+    apply fill_body_sorted; (assumption || lia).
+  - rewrite (Z.min_l x1 x2), (Z.max_r x1 x2), (Z.min_r y1 y2), (Z.max_l y1 y2) by lia.
+    apply fill_body_sorted; (assumption || lia).
+  - rewrite (Z.min_l x1 x2), (Z.max_r x1 x2), (Z.min_l y1 y2), (Z.max_r y1 y2) by lia.
+    apply fill_body_sorted; (assumption || lia).
+Qed.
+
+Lemma fill_out a x1 y1 x2 y2 (v : A) : ~ (in_bounds a x1 y1 /\ in_bounds a x2 y2) ->
+  fill a x1 y1 x2 y2 v = (a, Some IndexOutOfRange).
+Proof.
+  intro N. unfold fill, in_bounds in *.
+  destruct (Z.ltb_spec x1 0), (Z.geb_spec x1 (width a)); simpl; try reflexivity.
+  destruct (Z.ltb_spec y1 0), (Z.geb_spec y1 (height a)); simpl; try reflexivity.
+  destruct (Z.ltb_spec x2 0), (Z.geb_spec x2 (width a)); simpl; try reflexivity.
+  destruct (Z.ltb_spec y2 0), (Z.geb_spec y2 (height a)); simpl; try reflexivity.
+  lia.
+Qed.
+
+End FillTop.
+
+(* ---- constructors, Clone, String ---- *)
+Section Constructors.
+Context {A : Type}.
+Variable zero : A.
+Implicit Types (a : array2d A).
+
+Lemma nth_error_repeat (x : A) n j : nth_error (repeat x n) j = if (j <? n)%nat then Some x else None.
+Proof.
+  revert j; induction n as [|n IH]; intros [|j]; simpl; try reflexivity. rewrite IH.
+  reflexivity.
+Qed.
+
+Lemma new2d_spec w h : 0 <= w -> 0 <= h ->
+  exists a, new2d zero w h = Ok a /\ wf a /\ width a = w /\ height a = h /\
+    forall x y, in_bounds a x y -> get a x y = Ok zero.
+Proof.
+  intros Hw Hh. unfold new2d. destruct (Z.ltb_spec (w * h) 0); [nia|].
+  eexists. split; [reflexivity|]. split; [unfold wf; cbn [width height cells]; rewrite repeat_length; auto|].
+  split; [reflexivity|]. split; [reflexivity|].
+  intros x y Hin. rewrite (get_cell _ x y Hin). unfold pos. cbn [width height cells] in *.
+  rewrite nth_error_repeat. destruct Hin as [Hx Hy]. cbn [width height] in Hx, Hy.
+  pose proof (idx_range w h x y Hx Hy).
+  replace (Z.to_nat (x + y * w) <? Z.to_nat (w * h))%nat with true by (symmetry; apply Nat.ltb_lt; lia).
+  reflexivity.
+Qed.
+
+Lemma new2d_filled_spec w h (v : A) : 0 <= w -> 0 <= h ->
+  exists a, new2d_filled zero w h v = Ok a /\ wf a /\ width a = w /\ height a = h /\
+    forall x y, in_bounds a x y -> get a x y = Ok v.
+Proof.
+  intros Hw Hh. unfold new2d_filled. destruct (Z.ltb_spec (w * h) 0); [nia|].
+  set (slice := repeat zero (Z.to_nat (w * h))).
+  assert (HLs : length slice = Z.to_nat (w * h)) by apply repeat_length.
+  destruct (slices_fill_spec v slice 0%nat (length slice)) as (c' & E & HL & Hn); [lia|].
+  cbv zeta. rewrite E.
+  eexists. split; [reflexivity|]. split; [unfold wf; cbn [width height cells]; rewrite HL; auto|].
+  split; [reflexivity|]. split; [reflexivity|].
+  intros x y Hin. rewrite (get_cell _ x y Hin). unfold pos. cbn [width height cells] in *.
+  destruct Hin as [Hx Hy]. cbn [width height] in Hx, Hy.
+  pose proof (idx_range w h x y Hx Hy).
+  rewrite Hn. rewrite in_win_true by lia. reflexivity.
+Qed.
+
+Lemma clone_spec a : clone zero a = a.
+Proof.
+  destruct a as [w h c]. unfold clone. cbn [width height cells]. f_equal.
+  apply nth_error_ext. intro j. rewrite repeat_length.
+  rewrite copy_into_nth by (rewrite repeat_length; lia). rewrite Nat.min_id. simpl.
+  destruct (Nat.ltb_spec j (length c)) as [Hj|Hj].
+  - f_equal. lia.
+  - rewrite nth_error_repeat. replace (j <? length c)%nat with false by (symmetry; apply Nat.ltb_ge; lia).
+    symmetry. apply nth_error_None. lia.
+Qed.
+
+(* the value the jagged input prescribes for cell (x, y0 + k): the jagged value if it exists, else [old] *)
+Definition jag_value (jagged : list (list A)) (k x : Z) (old : option A) : option A :=
+  if k <? 0 then old else
+  match nth_error jagged (Z.to_nat k) with
+  | Some r => match nth_error r (Z.to_nat x) with Some v => Some v | None => old end
+  | None => old
+  end.
+
+Lemma from_jagged_loop_spec : forall (jagged : list (list A)) a y0, wf a -> 0 <= y0 ->
+  exists a', from_jagged_loop a y0 jagged = Ok a' /\ wf a' /\ width a' = width a /\ height a' = height a /\
+    forall x y, in_bounds a x y ->
+      nth_error (cells a') (pos a x y) = jag_value jagged (y - y0) x (nth_error (cells a) (pos a x y)).
+Proof.
+  induction jagged as [|r rest IH]; intros a y0 Hwf Hy0.
+  - exists a. simpl. split; [reflexivity|]. split; [exact Hwf|]. split; [reflexivity|]. split; [reflexivity|].
+    intros x y Hin. unfold jag_value. destruct (y - y0 <? 0); [reflexivity|].
+    destruct (Z.to_nat (y - y0)); reflexivity.
+  - cbn [from_jagged_loop]. destruct (Z.geb_spec y0 (height a)) as [Hge|Hlt].
+    + exists a. split; [reflexivity|]. split; [exact Hwf|]. split; [reflexivity|]. split; [reflexivity|].
+      intros x y [Hx Hy]. unfold jag_value. destruct (Z.ltb_spec (y - y0) 0); [reflexivity|]. lia.
+    + rewrite row_in by (assumption || lia). cbn [bind].
+      pose proof Hwf as (Hw & Hh & HL).
+      set (off := pos a 0 y0). set (n := Z.to_nat (width a)).
+      assert (Hpre : (off + Nat.min n (length r) <= length (cells a))%nat).
+      { unfold off, n, pos. assert (0 <= y0 * width a) by nia. nia. }
+      set (a1 := Arr (width a) (height a) (copy_into (cells a) (off, n) r)).
+      assert (Hwf1 : wf a1).
+      { unfold wf, a1; cbn [width height cells]. rewrite copy_into_length by exact Hpre. auto. }
+      destruct (IH a1 (y0 + 1) Hwf1) as (a' & E & Hwf' & Ew & Eh & Hn); [lia|].
+      exists a'. split; [exact E|]. split; [exact Hwf'|]. split; [exact Ew|]. split; [exact Eh|].
+      intros x y Hin. pose proof Hin as [Hx Hy].
+      assert (Hin1 : in_bounds a1 x y) by exact Hin.
+      specialize (Hn x y Hin1). unfold pos in Hn. cbn [width height cells a1] in Hn.
+      unfold pos. rewrite Hn. rewrite copy_into_nth by exact Hpre.
+      assert (Hcoord : in_win off (Z.to_nat (width a - 1 - 0 + 1)) (Z.to_nat (x + y * width a)) =
+                       (y =? y0) && (0 <=? x) && (x <=? width a - 1)).
+      { unfold off, pos. apply in_win_coords; lia. }
+      replace (width a - 1 - 0 + 1) with (width a) in Hcoord by lia. fold n in Hcoord.
+      assert (0 <= y0 * width a) by nia. assert (0 <= y * width a) by nia.
+      unfold jag_value.
+      destruct (Z.ltb_spec (y - (y0 + 1)) 0) as [Hk1|Hk1], (Z.ltb_spec (y - y0) 0) as [Hk|Hk]; try lia.
+      * (* y < y0: untouched *)
+        replace ((off <=? Z.to_nat (x + y * width a)) && (Z.to_nat (x + y * width a) <? off + Nat.min n (length r)))%nat
+          with false; [reflexivity|].
+        symmetry. apply andb_false_iff.
+        destruct (Nat.leb_spec off (Z.to_nat (x + y * width a))) as [Hle|]; [|left; reflexivity].
+        exfalso. assert (Hw' : in_win off n (Z.to_nat (x + y * width a)) = false).
+        { rewrite Hcoord. destruct (Z.eqb_spec y y0); [lia|reflexivity]. }
+        unfold off, pos in Hle. nia.
+      * (* y = y0: this row *)
+        assert (y = y0) by lia. subst y. replace (y0 - y0) with 0 by lia. cbn [Z.to_nat nth_error].
+        assert (Hposx : (Z.to_nat (x + y0 * width a) - off = Z.to_nat x)%nat) by (unfold off, pos; lia).
+        assert (Hoff : (off <=? Z.to_nat (x + y0 * width a))%nat = true) by (apply Nat.leb_le; unfold off, pos; lia).
+        rewrite Hoff. cbn [andb]. rewrite Hposx.
+        destruct (Nat.ltb_spec (Z.to_nat (x + y0 * width a)) (off + Nat.min n (length r))) as [Hl|Hl].
+        -- destruct (nth_error r (Z.to_nat x)) eqn:Er; [reflexivity|].
+           apply nth_error_None in Er. unfold off, pos, n in Hl. lia.
+        -- destruct (nth_error r (Z.to_nat x)) eqn:Er; [|reflexivity].
+           assert (Z.to_nat x < length r)%nat by (apply nth_error_Some; congruence).
+           unfold off, pos, n in Hl. lia.
+      * (* y > y0: a later row, not touched by this copy *)
+        replace (Z.to_nat (y - y0)) with (S (Z.to_nat (y - (y0 + 1)))) by lia. cbn [nth_error].
+        assert (Hw' : in_win off n (Z.to_nat (x + y * width a)) = false).
+        { rewrite Hcoord. destruct (Z.eqb_spec y y0); [lia|reflexivity]. }
+        assert (Hw'' : ((off <=? Z.to_nat (x + y * width a)) &&
+                        (Z.to_nat (x + y * width a) <? off + Nat.min n (length r)))%nat = false).
+        { apply andb_false_iff. unfold in_win in Hw'. apply andb_false_iff in Hw' as [Hf|Hf]; [left; exact Hf|].
+          right. apply Nat.ltb_ge. apply Nat.ltb_ge in Hf. lia. }
+        rewrite Hw''. reflexivity.
+Qed.
+
+Lemma new2d_from_jagged_spec w h (jagged : list (list A)) : 0 <= w -> 0 <= h ->
+  exists a, new2d_from_jagged zero w h jagged = Ok a /\ wf a /\ width a = w /\ height a = h /\
+    forall x y, in_bounds a x y ->
+      get a x y = Ok (match nth_error jagged (Z.to_nat y) with
+                      | Some r => match nth_error r (Z.to_nat x) with Some v => v | None => zero end
+                      | None => zero
+                      end).
+Proof.
+  intros Hw Hh. unfold new2d_from_jagged.
+  destruct (new2d_spec w h Hw Hh) as (a0 & E0 & Hwf0 & Ew0 & Eh0 & Hz). rewrite E0. cbn [bind].
+  destruct (from_jagged_loop_spec jagged a0 0 Hwf0) as (a & E & Hwf & Ew & Eh & Hn); [lia|].
+  exists a. split; [exact E|]. split; [exact Hwf|]. split; [lia|]. split; [lia|].
+  intros x y Hin. assert (Hin0 : in_bounds a0 x y) by (unfold in_bounds in *; rewrite <- Ew, <- Eh; exact Hin).
+  rewrite (get_cell a x y Hin). replace (pos a x y) with (pos a0 x y) by (unfold pos; rewrite Ew; reflexivity).
+  rewrite (Hn x y Hin0).
+  pose proof (Hz x y Hin0) as Hz'. rewrite (get_cell a0 x y Hin0) in Hz'.
+  destruct (nth_error (cells a0) (pos a0 x y)) as [z|] eqn:Ez; [|discriminate]. injection Hz' as ->.
+  unfold jag_value. replace (y - 0) with y by lia. destruct Hin0 as [_ Hy].
+  destruct (Z.ltb_spec y 0); [lia|].
+  destruct (nth_error jagged (Z.to_nat y)) as [r|]; [|reflexivity].
+  destruct (nth_error r (Z.to_nat x)); reflexivity.
+Qed.
+
+End Constructors.
+
+(* ---- String ---- *)
+Section StringRows.
+Context {A : Type}.
+Implicit Types (a : array2d A).
+
+Lemma mapM_total {X Y : Type} (f : X -> result Y) (l : list X) :
+  (forall x, In x l -> exists y, f x = Ok y) -> exists ys, mapM f l = Ok ys.
+Proof.
+  induction l as [|x l IH]; intro H; simpl; [eexists; reflexivity|].
+  destruct (H x) as [y Ey]; [left; reflexivity|]. rewrite Ey. simpl.
+  destruct IH as [ys Eys]; [intros; apply H; right; assumption|]. rewrite Eys. simpl. eexists; reflexivity.
+Qed.
+
+Lemma mapM_inv {X Y : Type} (f : X -> result Y) : forall (l : list X) ys, mapM f l = Ok ys ->
+  (length ys = length l)%nat /\
+  forall i x, nth_error l i = Some x -> exists y, nth_error ys i = Some y /\ f x = Ok y.
+Proof.
+  induction l as [|x l IH]; intros ys E; simpl in E.
+  - injection E as <-. split; [reflexivity|]. intros [|i] x H; discriminate.
+  - destruct (f x) as [y|] eqn:Ey; simpl in E; [|discriminate].
+    destruct (mapM f l) as [ys'|] eqn:Eys; simpl in E; [|discriminate]. injection E as <-.
+    destruct (IH ys' eq_refl) as [HL Hn]. split; [simpl; congruence|].
+    intros [|i] x' H; simpl in H.
+    + injection H as <-. exists y. auto.
+    + apply Hn. exact H.
+Qed.
+
+Lemma string_rows_spec a : wf a ->
+  exists rows, string_rows a = Ok rows /\ length rows = Z.to_nat (height a) /\
+   forall x y, in_bounds a x y ->
+      exists r v, nth_error rows (Z.to_nat y) = Some r /\ length r = Z.to_nat (width a) /\
+                 nth_error r (Z.to_nat x) = Some v /\ get a x y = Ok v.
+Proof.
+  intro Hwf.
+  assert (G : forall x y, (x < Z.to_nat (width a))%nat -> (y < Z.to_nat (height a))%nat ->
+            get_unchecked a (Z.of_nat x) (Z.of_nat y) = get a (Z.of_nat x) (Z.of_nat y) /\
+           exists v, get a (Z.of_nat x) (Z.of_nat y) = Ok v).
+  { intros x y Hx Hy. assert (Hin : in_bounds a (Z.of_nat x) (Z.of_nat y)) by (unfold in_bounds; lia).
+    destruct (get_in a _ _ Hwf Hin) as (v & Eg & _). split; [|exists v; exact Eg].
+    unfold get. rewrite (oob_false (Z.of_nat x) (width a)), (oob_false (Z.of_nat y) (height a)) by lia.
+    reflexivity. }
+  unfold string_rows.
+  destruct (mapM_total
+    (fun y => mapM (fun x => get_unchecked a (Z.of_nat x) (Z.of_nat y)) (seq 0 (Z.to_nat (width a))))
+    (seq 0 (Z.to_nat (height a)))) as [rows Erows].
+  { intros y Hy. apply in_seq in Hy. apply mapM_total. intros x Hx. apply in_seq in Hx.
+    destruct (G x y) as [E [v Ev]]; try lia. exists v. congruence. }
+  exists rows. split; [exact Erows|]. destruct (mapM_inv _ _ _ Erows) as [HL Hn].
+  split; [rewrite HL; apply seq_length|].
+  intros x y [Hx Hy].
+  destruct (Hn (Z.to_nat y) (Z.to_nat y)) as (r & Er & Emr).
+  { rewrite nth_error_nth' with (d := 0%nat) by (rewrite seq_length; lia). rewrite seq_nth by lia. reflexivity. }
+  destruct (mapM_inv _ _ _ Emr) as [HLr Hnr].
+  destruct (Hnr (Z.to_nat x) (Z.to_nat x)) as (v & Ev & Eg).
+  { rewrite nth_error_nth' with (d := 0%nat) by (rewrite seq_length; lia). rewrite seq_nth by lia. reflexivity. }
+  exists r, v. split; [exact Er|]. split; [rewrite HLr; apply seq_length|]. split; [exact Ev|].
+  destruct (G (Z.to_nat x) (Z.to_nat y)) as [E _]; try lia.
+  rewrite !Z2Nat.id in E by lia. rewrite <- E. rewrite !Z2Nat.id in Eg by lia. exact Eg.
+Qed.
+
+End StringRows.
+
+(* ---- Get returns the last value stored, for every sequence of Sets ---- *)
+Section LastStored.
+Context {A : Type}.
+Implicit Types (a : array2d A).
+
+Lemma set_all_spec : forall (ops : list (Z * Z * A)) a, wf a ->
+  Forall (fun o => in_bounds a (fst (fst o)) (snd (fst o))) ops ->
+  exists a', set_all a ops = (a', None) /\ wf a' /\ width a' = width a /\ height a' = height a /\
+    forall x y, get a' x y = match last_stored ops x y with Some v => Ok v | None => get a x y end.
+Proof.
+  induction ops as [|[[x0 y0] v0] rest IH]; intros a Hwf Hall.
+  - exists a. simpl. auto.
+  - inversion Hall as [|o l Hin Hrest]; subst. cbn [fst snd] in Hin.
+    destruct (set_in a x0 y0 v0 Hwf Hin) as (a1 & E1 & Hwf1 & Ew1 & Eh1 & Hg1 & Hother).
+    destruct (IH a1 Hwf1) as (a' & E & Hwf' & Ew & Eh & Hg).
+    { eapply Forall_impl; [|exact Hrest]. intros o Ho. unfold in_bounds in *. rewrite Ew1, Eh1. exact Ho. }
+    exists a'. cbn [set_all]. rewrite E1. split; [exact E|]. split; [exact Hwf'|].
+    split; [congruence|]. split; [congruence|].
+    intros x y. rewrite Hg. cbn [last_stored].
+    destruct (last_stored rest x y); [reflexivity|].
+    destruct (Z.eqb_spec x0 x) as [->|Nx]; [destruct (Z.eqb_spec y0 y) as [->|Ny]|]; cbn [andb].
+    + exact Hg1.
+    + apply Hother. congruence.
+    + apply Hother. congruence.
+Qed.
+
+End LastStored.
